@@ -282,7 +282,9 @@ struct SimpleNonArrayWrapper
         const T&  operator[] (size_t) const { return _arg; }
 
       private:
-        const T&  _arg;
+        // A copy, not a reference: the argument may be an element of the
+        // array that the operation modifies (a -= a[0]).
+        const T  _arg;
     };
 
     struct WritableDirectAccess : public ReadOnlyDirectAccess
